@@ -314,6 +314,28 @@ fn case<S: ShiftOps>(ctx: &mut Ctx, rng: &mut ChaCha20Rng) {
             }
         }
     }
+    // (1b) presented under a bound the verifier key was NOT trimmed for (below / between the enforced ones)
+    if !S::any_bound_ok() {
+        let top = *bounds.last().unwrap();
+        let missing: Vec<usize> = (1..top).filter(|b| !bounds.contains(b)).collect();
+        if missing.is_empty() {
+            ctx.skipped("unenforced-bound-label", "every bound below the largest enforced one is enforced");
+        } else {
+            let dm = missing[below(rng, missing.len())];
+            let relabelled: LComm<S> = LabeledCommitment::new("p".into(), tx.c.comms[0].commitment().clone(), Some(dm));
+            let cs = vec![&relabelled, &tx.c.comms[1]];
+            let o = check::<S>(&tx.w.vk, &cs, &z, &vals, &proof, &mut tx.sponge(), 8);
+            let mut d = desc.clone();
+            d["presented_bound"] = json!(dm);
+            d["enforced"] = json!(bounds);
+            // an unenforced label that happens to name the right shift cannot exist: dm != d_actual by construction
+            if pre_ok {
+                ctx.check(!o.is_accept(), "unenforced-bound-label", "check", d, || json!({"outcome": o.json()}));
+            } else {
+                ctx.skipped("unenforced-bound-label", "p(z) = 0 or z = 0: the bound identity holds trivially at this point");
+            }
+        }
+    }
     // (2) label removed (bound dropped on the verifier side)
     {
         let unl: LComm<S> = LabeledCommitment::new("p".into(), tx.c.comms[0].commitment().clone(), None);
